@@ -97,6 +97,22 @@ func lockSummary(dir, typ string, guarded map[string]bool) (map[string]*lockMeth
 				if len(fd.Body.List) >= 2 && astString(fd.Body.List[0]) == recv+".mu.Lock()" && astString(fd.Body.List[1]) == "defer "+recv+".mu.Unlock()" {
 					m.locks = true
 				}
+				// the same critical section written without defer: Lock() first, Unlock() last, and no return in between
+				if n := len(fd.Body.List); n >= 2 && astString(fd.Body.List[0]) == recv+".mu.Lock()" && astString(fd.Body.List[n-1]) == recv+".mu.Unlock()" {
+					hasReturn := false
+					ast.Inspect(fd.Body, func(x ast.Node) bool {
+						switch x.(type) {
+						case *ast.FuncLit:
+							return false
+						case *ast.ReturnStmt:
+							hasReturn = true
+						}
+						return true
+					})
+					if !hasReturn {
+						m.locks = true
+					}
+				}
 				// any other use of the mutex (explicit Unlock, a second Lock) breaks the pattern
 				muUses := 0
 				var loops [][2]token.Pos
